@@ -127,6 +127,21 @@
       returns it (possibly updated) with the result; `if let Some(x) = p` makes `x` an alias of the `T` behind it; call
       arguments are `Some(&mut place)` (written back), `None`, or such a parameter passed on.  Any other `&mut` nested in a
       parameter type, and every `&mut` in a return type, is REJECTED (it would silently become a copy);
+    * `HashMap<SocketAddr, V>` is the association list `AMap` (unique keys, insertion order; `insert` replaces in
+      place or appends, `remove` filters); its iteration order is as unspecified as the HashMap's and is never exposed:
+      `values_mut()` / `iter_mut()` only under the manifest whitelist + the translator's check, `retain(|k, v| p)` only
+      with a pure predicate on its own entry (`List.filter`);
+      iterator adaptors with closures — `find`, `find_map`, `filter_map`, `any`, `position`, `Option::map`, `enumerate` —
+      are the `List` functions when the closure body is a pure expression, else the monadic primitives `findM`,
+      `find_mapM`, `filter_mapM`, `anyM`, `positionM` (same order; the searching ones stop at the first hit);
+      `match x { P if g => a, rest.. }` (guards, on a variable / field scrutinee) is
+      `match x { P => if g { a } else { match x { rest.. } }, rest.. }`;
+      `Box<[T]>` is `[T]`; `mem::take` of a boxed slice leaves the empty slice; `into_vec()` / `into_boxed_slice()` are the
+      identity; `Duration::as_secs()` is the number of whole seconds; a method named like a field of its struct gets a
+      trailing `'` in Lean (`NetcodeServer.current_time'`);
+      a struct / enum whose fields hold `&mut` references is REJECTED unless listed in the manifest (BORROWED_FIELDS_OK:
+      `renetcode::ServerResult`, whose `&'s mut [u8]` payloads are slices of the server's scratch buffer built in return
+      position — translated as the snapshot of those bytes at the return);
     * a type parameter `I: Into<T>` is `T` and `x.into()` the identity on it (what every caller in the crates passes:
       `u8` channel ids, `Bytes` / `Vec<u8>` messages); a `Result` call whose result the caller inspects
       (`if let Err(e) = f(..)`, `match f(..) { Ok(..) => .., Err(..) => .. }`) is `Exec.attempt`: the `&mut` state the
@@ -263,6 +278,33 @@ def filterM {ε ρ α : Type} (l : List α) (p : α → Exec ε ρ Bool) : Exec 
   match l with
   | [] => .val []
   | x :: r => (p x).bind fun b => (filterM r p).bind fun r' => .val (if b then x :: r' else r')
+
+/-- `iter.find_map(f)`, `find(p)`, `any(p)`, `position(p)` with closures that call translated functions: elements are
+    visited in order and the search STOPS at the first hit (later elements are not evaluated, as in Rust);
+    `filter_map(f)` visits every element -/
+def find_mapM {ε ρ α β : Type} (l : List α) (f : α → Exec ε ρ (Option β)) : Exec ε ρ (Option β) :=
+  match l with
+  | [] => .val none
+  | x :: r => (f x).bind fun o => match o with
+    | some b => .val (some b)
+    | none => find_mapM r f
+def findM {ε ρ α : Type} (l : List α) (p : α → Exec ε ρ Bool) : Exec ε ρ (Option α) :=
+  match l with
+  | [] => .val none
+  | x :: r => (p x).bind fun b => if b then .val (some x) else findM r p
+def anyM {ε ρ α : Type} (l : List α) (p : α → Exec ε ρ Bool) : Exec ε ρ Bool :=
+  match l with
+  | [] => .val false
+  | x :: r => (p x).bind fun b => if b then .val true else anyM r p
+def positionM {ε ρ α : Type} (l : List α) (p : α → Exec ε ρ Bool) : Exec ε ρ (Option Nat) := go 0 l
+where
+  go (i : Nat) : List α → Exec ε ρ (Option Nat)
+    | [] => .val none
+    | x :: r => (p x).bind fun b => if b then .val (some i) else go (i + 1) r
+def filter_mapM {ε ρ α β : Type} (l : List α) (f : α → Exec ε ρ (Option β)) : Exec ε ρ (List β) :=
+  match l with
+  | [] => .val []
+  | x :: r => (f x).bind fun o => (filter_mapM r f).bind fun r' => .val (match o with | some b => b :: r' | none => r')
 
 /-- how one run of a `while` body ended early: `return r` of the function, `continue`, `break`
     (both with the current values of the loop-carried variables) -/
@@ -540,12 +582,36 @@ def remove : Set → Nat → Set
   | k' :: r, k => if k' = k then r else k' :: remove r k
 end Set
 
+/-- a `HashMap` whose key is not an integer (`HashMap<SocketAddr, _>`): an association list with unique keys in
+    insertion order.  Rust's iteration order is unspecified; translated code never exposes it (iteration only under the
+    manifest whitelists, `retain` with a pure predicate on its own entry). -/
+abbrev AMap (κ α : Type) := List (κ × α)
+namespace AMap
+variable {κ α : Type} [DecidableEq κ]
+def find? : AMap κ α → κ → Option α
+  | [], _ => none
+  | (k', v) :: r, k => if k' = k then some v else find? r k
+def contains_key (m : AMap κ α) (k : κ) : Bool := (find? m k).isSome
+/-- `insert(k, v)`: replaces the binding of `k` in place, else appends -/
+def insert : AMap κ α → κ → α → AMap κ α
+  | [], k, v => [(k, v)]
+  | (k', v') :: r, k, v => if k' = k then (k', v) :: r else (k', v') :: insert r k v
+/-- `remove(&k)` -/
+def remove (m : AMap κ α) (k : κ) : AMap κ α := m.filter fun p => decide (p.1 ≠ k)
+def index {ε ρ : Type} (m : AMap κ α) (k : κ) (site : String) : Exec ε ρ α :=
+  match find? m k with
+  | some v => .val v
+  | none => .panic site
+end AMap
+
 /-- `std::time::Duration` is its number of nanoseconds; `Duration::MAX` = `u64::MAX` s + 999_999_999 ns.
     Only comparison and copy are supported by the translator. -/
 def Duration.MAX : Nat := 2 ^ 64 * 1000000000 - 1
 /-- `Duration::from_secs(s)` / `from_millis(ms)` for `u64` arguments (always representable) -/
 def Duration.from_secs (s : Nat) : Nat := s * 1000000000
 def Duration.from_millis (ms : Nat) : Nat := ms * 1000000
+/-- `d.as_secs()` (whole seconds; `< 2^64` for every representable duration) -/
+def Duration.as_secs (d : Nat) : Nat := d / 1000000000
 /-- `a + b` on Durations: panics on overflow -/
 def Duration.add {ε ρ : Type} (a b : Nat) (site : String) : Exec ε ρ Nat :=
   if a + b ≤ Duration.MAX then .val (a + b) else .panic site
